@@ -56,6 +56,9 @@ pub enum RForm {
     /// build N only: object API into the protected heap container
     ObjFromBytesHeap,
     ObjDecryptLocked,
+    /// build N only: the key lives in locked memory created before the process forks; the
+    /// opening call runs in the forked child
+    ObjLockedKeyInChild,
 }
 
 impl RForm {
@@ -77,6 +80,7 @@ impl RForm {
             RForm::ObjFromBytesVecMac => "obj.from_bytes<Vec mac>+decrypt",
             RForm::ObjFromBytesHeap => "obj.from_bytes<HeapBytes>+decrypt",
             RForm::ObjDecryptLocked => "obj.decrypt<LockedBytes>",
+            RForm::ObjLockedKeyInChild => "obj.decrypt(locked key, in a forked child)",
         }
     }
     fn combined(&self) -> bool {
@@ -287,6 +291,7 @@ pub fn receiver_forms(suite: Suite) -> Vec<RForm> {
         v.push(RForm::ObjFromBytesHeap);
         if suite != Suite::Sealed {
             v.push(RForm::ObjDecryptLocked);
+            v.push(RForm::ObjLockedKeyInChild);
         }
     }
     v
@@ -823,6 +828,42 @@ impl BoxWorld {
                         }
                     }
                 }
+                #[cfg(feature = "nightly")]
+                (s, RForm::ObjLockedKeyInChild) => {
+                    use dryoc::protected::*;
+                    let r = match s {
+                        Suite::Secretbox => {
+                            let key: Locked<HeapByteArray<32>> = HeapByteArray::<32>::from_slice_into_locked(&d.key).expect("failed to get locked bytes for the key");
+                            let b = dryoc::dryocsecretbox::VecBox::from_parts(d.mac.into(), d.body.clone());
+                            crate::kit::fork_run(|| match b.decrypt_to_vec(&d.nonce, &key) {
+                                Ok(m) => {
+                                    let mut v = vec![1u8];
+                                    v.extend_from_slice(&m);
+                                    v
+                                }
+                                Err(_) => vec![0u8],
+                            })
+                        }
+                        _ => {
+                            let sk: Locked<HeapByteArray<32>> = HeapByteArray::<32>::from_slice_into_locked(&b_sk).expect("failed to get locked bytes for the key");
+                            let b = dryoc::dryocbox::VecBox::from_parts(d.mac.into(), d.body.clone(), None);
+                            crate::kit::fork_run(|| match b.decrypt_to_vec(&d.nonce.into(), &a_pk.into(), &sk) {
+                                Ok(m) => {
+                                    let mut v = vec![1u8];
+                                    v.extend_from_slice(&m);
+                                    v
+                                }
+                                Err(_) => vec![0u8],
+                            })
+                        }
+                    };
+                    match r {
+                        Ok(v) if v.first() == Some(&1) => Some(v[1..].to_vec()),
+                        Ok(_) => None,
+                        Err(how) if how.starts_with("harness") => panic!("{}", how),
+                        Err(how) => panic!("the forked child that ran the opening call with a key in locked memory was {} instead of returning Ok or Err", how),
+                    }
+                }
                 (s, f) => panic!("harness: receiver form {:?} not available for suite {:?} in this build", f, s),
             }
         });
@@ -877,7 +918,7 @@ impl World for BoxWorld {
         }
         if cfg!(feature = "nightly") {
             // build N exists for the protected-container receivers only
-            rfs.retain(|f| matches!(f, RForm::ObjFromBytesHeap | RForm::ObjDecryptLocked));
+            rfs.retain(|f| matches!(f, RForm::ObjFromBytesHeap | RForm::ObjDecryptLocked | RForm::ObjLockedKeyInChild));
         }
         let rform = *rng.pick(&rfs);
         Config { prop: prop.to_string(), suite, sform, rform, rseed: rng.next_u64(), fault_free: rng.chance(1, 8), packets: 1 + rng.usize_below(3), long_tail: rng.chance(1, 10) }
@@ -1040,6 +1081,12 @@ impl World for BoxWorld {
                 out.probe(&format!("forged.weakkey.{}", verdict));
                 out.note(&format!("forged box under small-order key {} len={} -> {}", point % 4, len, verdict));
                 let suite_s = suite_name(suite);
+                if let Err((_, msg)) = &res {
+                    if msg.starts_with("harness:") || ((rf == RForm::ObjDecryptLocked || rf == RForm::ObjLockedKeyInChild) && msg.contains("locked bytes")) {
+                        out.harness_error(format!("environment: {}", msg));
+                        return;
+                    }
+                }
                 if let Err((loc, msg)) = &res {
                     out.violate("C04", "c04.panic", site(&[("receiver", &format!("{}.{}", suite_s, rf.name())), ("fault", "forged.weakkey"), ("len_class", ">overhead"), ("panic_site", loc)]), format!("receiver unwound on a box forged under a small-order public key: {} at {}", msg, loc));
                 }
@@ -1101,7 +1148,7 @@ impl World for BoxWorld {
                 }
                 // ---- C04: totality
                 match &res {
-                    Err((_loc, msg)) if rf == RForm::ObjDecryptLocked && msg.contains("locked bytes") => {
+                    Err((_loc, msg)) if ((rf == RForm::ObjDecryptLocked || rf == RForm::ObjLockedKeyInChild) && msg.contains("locked bytes")) || msg.starts_with("harness:") => {
                         // the *environment* refused mlock (no CAP_IPC_LOCK / tiny RLIMIT_MEMLOCK):
                         // that is not a statement about the repository
                         out.harness_error(format!("this environment refuses mlock, the LockedBytes receiver cannot run: {}", msg));
